@@ -415,10 +415,12 @@ def padTab (dims : List Dim) (led : Led) : Tab :=
     `k + 2` coefficients (the inputs and the two paddings) and `k + 2 + order + 1` knots -/
 def stackDims (dims : List Dim) (k order : Nat) : List Dim := dims ++ [⟨order, k + 2 + order + 1, k + 2⟩]
 
-/-- what the new table obtains, in source order; `extents` only with C20-13 -/
+/-- what the new table obtains, in source order; `extents` only with C20-13; C20-14 obtains `strides`
+    before the coefficients (`release_storage` sizes the coefficient array by `strides[0]*naxes[0]`) -/
 def stackMainBlocks (c : Cfg) (dims : List Dim) (k order : Nat) : List Nat :=
   [4 * (dims.length + 1), 8 * (dims.length + 1), 8 * (dims.length + 1)] ++ knotBlocks (stackDims dims k order) ++
-  [8 * (dims.length + 1), 4 * ncoef (stackDims dims k order), 8 * (dims.length + 1)] ++
+  (if c.stackGuard then [8 * (dims.length + 1), 8 * (dims.length + 1), 4 * ncoef (stackDims dims k order)]
+   else [8 * (dims.length + 1), 4 * ncoef (stackDims dims k order), 8 * (dims.length + 1)]) ++
   (if c.stackExtents then [8 * (dims.length + 1), 16 * (dims.length + 1)] else [])
 
 def stackTarget (c : Cfg) (dims : List Dim) (k order : Nat) : Tab :=
